@@ -5,7 +5,7 @@ symbolic word and must hand back exactly the bits of its field; the time read ba
 unit the fraction was divided by."""
 import absint
 from absint import Interp, Order, Cell, Unmodelled, BitOverlap, bv_field, bv_const
-from facts import strip_generics, last_seg
+from facts import strip_generics, last_seg, ty_head
 
 FIELDS = {'seconds': 32, 'fractional': 8, 'counter': 16, 'node': 8}
 UNITS = {'subsec_millis': ('millis', 10), 'subsec_micros': ('micros', 20), 'subsec_nanos': ('nanos', 30)}
@@ -269,3 +269,62 @@ def reader_by_interpretation(facts, fs, layout):
     if len(readers) != 1:
         raise Unmodelled('from_str routes its pieces differently on different paths')
     return dict(readers.pop()), splits
+
+
+# ---------------------------------------------------------------------------------------------------------------------
+# a hand-written order: cmp(a, b) interpreted under every field-wise relation of a and b
+# ---------------------------------------------------------------------------------------------------------------------
+def check_order(ctx, facts, rule, T):
+    """`<HLCTimestamp as Ord>::cmp` (and partial_cmp) interpreted with each accessor of a / b an order symbol, under all 3^4
+    field-wise relations: the result must be the relation of the most significant differing field (significance from the layout
+    the constructor gives: seconds > fractional > counter > node), i.e. the numeric order of the packed words."""
+    import itertools
+    from orswot_abs import _fallback
+    from absint import Order
+    order_fields = ['seconds', 'fractional', 'counter', 'node']
+    try:
+        cmpb = [b for b in facts.bodies.values() if b.crate == 'datacake_crdt' and not b.d['promoted'] and b.impl and b.name.endswith('::cmp')
+                and 'core::cmp::Ord' in b.impl and ty_head(b.impl.split(' as ')[0].lstrip('<')) == T]
+        pcmp = [b for b in facts.bodies.values() if b.crate == 'datacake_crdt' and not b.d['promoted'] and b.impl and b.name.endswith('::partial_cmp')
+                and 'core::cmp::PartialOrd' in b.impl and ty_head(b.impl.split(' as ')[0].lstrip('<')) == T]
+        if len(cmpb) != 1 or len(pcmp) != 1:
+            raise Unmodelled('Ord::cmp / PartialOrd::partial_cmp of HLCTimestamp not found (%d/%d)' % (len(cmpb), len(pcmp)))
+        accessor = {T + '::' + f: f for f in order_fields}
+
+        def hook_(interp, name, args, t, body):
+            f = accessor.get(strip_generics(name))
+            if f is not None and args:
+                who = interp.deref_all(args[0])
+                w = who[3][0].v if who and who[0] == 'adt' else None
+                if w is None or w[0] != 'sym':
+                    raise Unmodelled('accessor on something that is not one of the two operands')
+                return ('ts', '%s.%s' % (w[1], f))
+            return None
+        bad = []
+        n = 0
+        for rels in itertools.product('<=>', repeat=4):
+            want = '='
+            for f, r in zip(order_fields, rels):
+                if r != '=':
+                    want = r
+                    break
+            order = Order({('a.' + f, 'b.' + f): r for f, r in zip(order_fields, rels)})
+            for body, wrap in ((cmpb[0], False), (pcmp[0], True)):
+                it = Interp(facts, order, opaque_call=hook_)
+                a = ('adt', T, 0, [Cell(('sym', 'a'))])
+                b = ('adt', T, 0, [Cell(('sym', 'b'))])
+                r = it.deref_all(it.run_body(body, [('ref', Cell(a)), ('ref', Cell(b))]))
+                if wrap:
+                    if r is None or r[0] != 'adt' or r[1] != 'core::option::Option' or r[2] != 1:
+                        bad.append('partial_cmp returns None for fields %s' % dict(zip(order_fields, rels)))
+                        continue
+                    r = it.deref_all(r[3][0].v)
+                got = {0: '<', 1: '=', 2: '>'}.get(r[2]) if r and r[0] == 'adt' and r[1] == 'core::cmp::Ordering' else None
+                n += 1
+                if got != want:
+                    bad.append('%s gives %s for field relations %s, the packed words compare %s' % ('partial_cmp' if wrap else 'cmp', got, dict(zip(order_fields, rels)), want))
+    except (Unmodelled, absint.NeedChoice, absint.PanicPath, IndexError, TypeError, KeyError, AttributeError) as e:
+        return _fallback(ctx, rule, e)
+    ctx.ob(rule, 'order|hand-written-cmp-is-word-order', not bad, '%s:%s' % (cmpb[0].file, cmpb[0].line),
+           'the hand-written cmp / partial_cmp agree with the numeric order of the packed word on all %d field-wise relations' % n if not bad else bad[0])
+    return True
